@@ -18,6 +18,7 @@ import (
 	"hash/fnv"
 	"os"
 	"path/filepath"
+	"runtime"
 	"runtime/debug"
 	"sort"
 	"strconv"
@@ -322,6 +323,19 @@ func writeJSON(path string, v any) error {
 // runCase runs one scenario with panics in the calling goroutine turned into
 // violations of class "panic".
 func runCase(t *testing.T, p *Property, sc any, c *Ctx) (err error) {
+	// Real-time watchdog (this code runs outside the bubble): a case that does
+	// not finish is a stall of the system under test or of the harness; dump
+	// all goroutines and end the process so that the driver can replay it.
+	if d := time.Duration(envInt("VERIF_CASE_TIMEOUT_S", 600)) * time.Second; d > 0 {
+		wd := time.AfterFunc(d, func() {
+			fmt.Printf("WATCHDOG: case exceeded %s of real time; goroutine dump follows\n", d)
+			buf := make([]byte, 1<<22)
+			n := runtime.Stack(buf, true)
+			_, _ = os.Stdout.Write(buf[:n])
+			os.Exit(3)
+		})
+		defer wd.Stop()
+	}
 	defer func() {
 		if r := recover(); r != nil {
 			if _, ok := r.(failNow); ok {
